@@ -43,12 +43,8 @@ TEXTS = {
     },
     "C02": {
         "design_ref": "DESIGN.md §8 C02",
-        "technique": "Lean 4 theorems about an executable model of the tokenizer (progress measure, fuel sufficiency, line-counter invariant); "
-                     "differential run + panic/hang/line-range oracle on the real loader over exhaustive short strings and mutations",
-        "level_text": "Proved for all byte strings about the model of lexer.rs: every call of next returns, tokenising terminates within "
-                      "2*len+4 calls, and every reported line (event or error) lies in [1, 1 + newlines]. The model is compared with the "
-                      "real tokenizer on error kind and line for every input of the run. Partial: the parser level is covered by the "
-                      "oracle run on the real code (catch_unwind, watchdog, line range, check_buffer vs load_buffer), not by a theorem.",
+        "technique": 'Lean 4 theorems about executable models of the tokenizer and of the whole parser (progress measure, budget sufficiency, line-counter invariant); differential run of both models against the real loader on every input (error kind and line, warnings) + panic/hang/line-range oracle over exhaustive short strings and mutations',
+        "level_text": 'Proved for all byte strings: every call of the tokenizer returns, tokenising terminates within 2*len+4 calls, every reported tokenizer line lies in [1, 1 + newlines]; and for the model of parser.rs (parse_arxml .. parse_character_data): in both modes the run ends with a document or a genuine tokenizer / parser error - its step budget is never what ends it. Both models answer every `load` request of the run and are compared with the library on error kind, error line and the list of warnings (2.3 million requests in the quick tier). Never-panic of the real code and the header check are decided by the run (catch_unwind, watchdog, child process for deep nesting): partial.',
         "level_note": "Trusted: Lean kernel; axioms propext, Classical.choice, Quot.sound; the lexer model is tied to lexer.rs only by the "
                       "correspondence run. Known finding: stack overflow on documents nested tens of thousands of elements deep (child "
                       "process replay on every run). Stack depth, allocator and timing are outside the model.",
@@ -98,22 +94,22 @@ TEXTS = {
         "technique": "Lean 4 theorems about an executable model of the element tree / path index / reverse reference map and its editing "
                      "operations; differential run of the model against the library on operation histories with full state dumps; direct "
                      "property oracle on the library",
-        "level_text": 'Proved for all worlds and arguments: an error answer of create, named create, remove, rename, set/remove character data, set attribute (both forms), insert/remove text item and deep copy returns the identical world. set_reference_target and move_element_here mutate before their last fallible step in the code and in the model (no theorem; searched by the oracle). Loads: merge scenario on the real library.',
+        "level_text": 'Proved for all worlds and arguments: an error answer of create, named create, remove, rename, set/remove character data, set attribute (both forms), insert/remove text item, deep copy, add_to_file, remove_from_file, set_version and a rejected first load returns the identical world. set_reference_target and move_element_here mutate before their last fallible step in the code and in the model (no theorem; searched by the oracle). Loads: merge scenario on the real library.',
         "level_note": "Trusted: Lean kernel; axioms propext, Classical.choice, Quot.sound; the hand model is tied to the Rust code by the "
                       "correspondence run only (244 of 300 quick histories are compared to the end, the others up to the first file-set "
                       "operation / move between models). " + 'Partial: frame theorems cover 11 operations; the two late-failure sites are documented, not proved unreachable.',
     },
     "C01": {
         "design_ref": 'DESIGN.md §8 C01',
-        "technique": "Lean 4 theorems about the value layer, the tokenizer and the parser's error discipline; oracle run on the real loader/serializer over specification-derived, grammar-directed and defect-injected documents",
+        "technique": 'Lean 4 theorems about the value layer and the tokenizer; executable models of the whole parser and of the serializer, run against the library on every document of the run (load: tree, index, references, warnings; serialize: the text byte for byte); oracle on the real loader/serializer (independent XML reader, fixpoint)',
         "level_text": "Proved for all inputs: every string / u64 / enumeration item survives write+read; the escaped form of any string contains no '<' so the tokenizer reads it back as one character run; all-blank runs produce no event; a comment event carries exactly the bytes between the delimiters; both modes agree on values. The element-level statement (model equality after load-serialize-load in all versions and modes) is checked on the real library with an independent XML reader as oracle: partial.",
-        "level_note": "Trusted: Lean kernel; axioms propext, Classical.choice, Quot.sound. " + 'The element-level parser/serializer have no Lean model; known findings c01:* are replayed on every run.',
+        "level_note": 'Trusted: Lean kernel; axioms propext, Classical.choice, Quot.sound. The identity parse(serialize(t)) = t at element level is decided by the correspondence run and the oracle, not by a theorem; f64::to_string is outside the serializer model; known findings c01:* are replayed on every run.',
     },
     "C08": {
         "design_ref": 'DESIGN.md §8 C08, Appendix D.4',
-        "technique": "Lean 4 theorems about the value layer, the tokenizer and the parser's error discipline; oracle run on the real loader/serializer over specification-derived, grammar-directed and defect-injected documents",
-        "level_text": "Proved for ALL computations built from the parser's three primitives (optional_error as the only reader of `strict`, hard error, sequencing): lenient without warnings => strict identical; lenient with warnings => strict fails with the first warning. Instantiated for parse_character_data + unescape_string for all byte strings and value specs. The element-level parser and the list of documented constraints are checked on the real library with injected defects of 20 classes in both modes: partial.",
-        "level_note": "Trusted: Lean kernel; axioms propext, Classical.choice, Quot.sound. " + 'parse_element is not yet written in the monad; known finding c08:empty-short-name-accepted.',
+        "technique": "Lean 4 theorems about an executable model of the whole parser written in the parser's own error discipline (optional_error as the only reader of `strict`); differential run of that model against the library on documents (tree, index, warnings and errors with kind and line, both modes); oracle on the library for the list of documented constraints",
+        "level_text": "Proved: lock-step of the two modes is closed under sequencing and holds of the three primitives; the WHOLE parser model (file header, parse_element with sub-element lookup, version / choice / multiplicity / SHORT-NAME checks, parse_attribute_text, parse_character_data for all five value kinds, unescape_string) is lock-step, hence for every buffer: a lenient run without warnings is identical to the strict run, and if the lenient run has warnings the strict run fails with exactly the first. The model answers the `load` requests of the document scenario and is compared with the library. 'No holes' (documented constraint violations never accepted by strict loading) is decided by the oracle on the library: partial.",
+        "level_note": 'Trusted: Lean kernel; axioms propext, Classical.choice, Quot.sound. String::from_utf8_lossy on invalid UTF-8 is outside the parser model; known finding c08:empty-short-name-accepted.',
     },
     "C09": {
         "design_ref": 'DESIGN.md §8 C09',
@@ -124,8 +120,8 @@ TEXTS = {
     "C10": {
         "design_ref": 'DESIGN.md §8 C10',
         "technique": 'Lean 4 theorems about an executable model of the element tree / file sets / copy / sort and its operations; differential run of the model against the library on operation histories with full state dumps; direct property oracle on the library',
-        "level_text": "Proved for all chains: an element without a local file set has its parent's effective set, one with a local set has that set, and every element below a root that belongs to a file has a non-empty effective set (nothing can be lost on write for lack of a file). Containment, self-contained files and remove_file are checked on the real library (files histories, merge scenario): partial.",
-        "level_note": "Trusted: Lean kernel; axioms propext, Classical.choice, Quot.sound. " + 'add_to_file / remove_from_file / remove_file are not in the Lean model yet.',
+        "level_text": "Proved for all trees and arguments: the invariant 'every local file set lies within the effective set of the parent' is preserved by create_file, add_to_file (induction along the upward walk of add_to_file_restricted), remove_from_file, remove_file, remove_sub_element and create_sub_element; inheritance of the effective set; every element of a model whose root is in a file is in some file. The models of these operations answer the mkfile / addfile / rmfromfile / rmfile requests and are compared with the library on full dumps. Self-contained file texts and the exactness of remove_file are decided by the oracle (files histories incl. load, merge scenario): partial.",
+        "level_note": 'Trusted: Lean kernel; axioms propext, Classical.choice, Quot.sound. Not preserved by the library (known findings): move keeps the file sets of descendants, add_to_file accepts a removed file, SHORT-NAME with a set of its own.',
     },
     "C12": {
         "design_ref": 'DESIGN.md §8 C12',
